@@ -161,7 +161,7 @@ fn c02_approve(m: usize) -> u8 {
                         && model::event_topics(nev) == model::topics_of(&(Symbol::new(&env, "message_approved"), mj.clone())), "VERIF:C02:one message_approved event per newly approved message, in order");
                     nev += 1;
                 } else {
-                    kani::assert(status_is(&mj.source_chain, &mj.message_id, st[j], &sh[j]), "VERIF:C02:re-approval of a known id (approved or executed) changes nothing");
+                    kani::assert(status_is(&mj.source_chain, &mj.message_id, st[j], &sh[j]), "VERIF:C02,C16:re-approval of a known id (approved or executed) changes nothing");
                 }
                 j += 1;
             }
@@ -178,7 +178,7 @@ fn c02_approve(m: usize) -> u8 {
     }
     outcome
 }
-// HARNESS props=C02,C01 tier=quick profile=gw_appr1 shape="batch M=1; arbitrary prior status; witness key; strings <=2 bytes"
+// HARNESS props=C02,C01,C16 tier=quick profile=gw_appr1 shape="batch M=1; arbitrary prior status; witness key; strings <=2 bytes"
 #[kani::proof]
 #[kani::stub(crate::auth::validate_proof, stub_validate_proof)]
 fn c02_approve_m1() {
